@@ -186,7 +186,10 @@ def pastDeadline (t : Nat) : Option Nat → Bool
 def tickEntry (P : Params) (t : Nat) (e : Pend) : Option Pend × Option Entry :=
   if pastDeadline t e.deadline || exhausted P e.n then (none, none)
   else if t > e.start + (e.n + retransmitAddend) * P.ackTimeout then
-    (some { e with n := e.n + 1 }, some (.tx e.id (e.n + 1) t e.msg))
+    -- the copy is written; the entry stays for the answer to this copy until a later pass finds it expired
+    -- (`dropsInPassOfLastCopy`: would the same pass test expiry again and drop it — regenerated from the source)
+    (if dropsInPassOfLastCopy && exhausted P (e.n + 1) then none else some { e with n := e.n + 1 },
+     some (.tx e.id (e.n + 1) t e.msg))
   else (some e, none)
 
 def tickList (P : Params) (t : Nat) : List Pend → List Pend × List Entry
